@@ -273,4 +273,47 @@ Definition basic_instr (S : list nat) (i : instr) : bool :=
 Definition basic_set (S : list nat) : bool :=
   forallb (fun f => forallb (basic_instr S) (body f)) S.
 
+
+(** G for C10: what a use does when no evaluation was ever cancelled — the same loop without
+    the generation check, on threads stripped of their frames. (The [armed] flag only keeps G in
+    lockstep with the two micro-steps of Y; it decides nothing.) *)
+Definition gthread := (list (nat * nat) * bool * list phase)%type.
+
+Definition gstep (g : gthread) (b : bool) : gthread * list (option nat) :=
+  let '(stk, ar, ph) := g in
+  match stk with
+  | [] => match ph with
+          | [] => (g, [])
+          | PRoot f :: rest | PFun f :: rest => (([(f, 0)], false, rest), [])
+          end
+  | (f, pc) :: stk' =>
+      match nth_error (body f) pc with
+      | None => ((stk', false, ph), [])
+      | Some i =>
+          if ar then
+            match i with
+            | Tick n => (((f, S pc) :: stk', false, ph), [Some n])
+            | Nop | Go _ => (((f, S pc) :: stk', false, ph), [None])
+            | Call f' => (((f', 0) :: (f, S pc) :: stk', false, ph), [None])
+            | Jmp pc' => (((f, pc') :: stk', false, ph), [None])
+            | Br pc' => (((f, if b then pc' else S pc) :: stk', false, ph), [None])
+            | Ret => ((stk', false, ph), [None])
+            | _ => (g, [])
+            end
+          else ((stk, true, ph), [])
+      end
+  end.
+
+(** outputs, most recent first (the order of [log]) *)
+Fixpoint grun (g : gthread) (bs : list bool) : list (option nat) :=
+  match bs with
+  | [] => []
+  | b :: bs' => grun (fst (gstep g b)) bs' ++ snd (gstep g b)
+  end.
+
+Definition erase (th : thread) : gthread :=
+  (map (fun a => (afn a, apc a)) (stack th), armed th, phases th).
+
+Definition phase_fn (ph : phase) : nat := match ph with PRoot f | PFun f => f end.
+
 End Machine.
